@@ -92,6 +92,12 @@ fn check_within(run: &ProverRun, sub: &str, res: &mut CaseResult) {
         if *v == Scalar::ZERO {
             res.violate(format!("{}/zero/{}", sub, name), format!("nonce {} is zero", name));
         }
+        // a nonce is a uniform scalar: one whose upper half is all zero bytes (or whose lower half is) was drawn from a space
+        // of at most 2^128 values
+        let b = v.to_bytes();
+        if b[16..].iter().all(|x| *x == 0) || b[..16].iter().all(|x| *x == 0) {
+            res.violate(format!("{}/short/{}", sub, name), format!("nonce {} has 16 zero bytes: it was not drawn from the whole scalar field", name));
+        }
         if let Some(prev) = seen.insert(v.to_bytes(), name.clone()) {
             res.violate(format!("{}/repeat/{}", sub, name), format!("nonce {} equals nonce {} within one proof", name, prev));
         }
